@@ -720,6 +720,35 @@ fn record_reach(st: &St, op: &FOp, n: usize, opname: &str, res: &mut RunResult) 
                 }
             }
         }
+        FOp::Q2Bin { form, a, b, .. } => {
+            let c2 = |i: usize| -> &'static str {
+                let (re, im) = &st.q2.regs[i % n].1;
+                match (re.is_zero(), im.is_zero()) {
+                    (true, true) => "0",
+                    (false, true) => "real",
+                    (true, false) => "imag",
+                    _ => {
+                        if value_class(re, q) != "other" || value_class(im, q) != "other" {
+                            "boundary"
+                        } else {
+                            "general"
+                        }
+                    }
+                }
+            };
+            res.reach(format!("{}|{}|{}", opname, c2(*a), c2(*b)));
+            res.reach(format!("{}|form={:?}", opname, form));
+        }
+        FOp::Q2Sqrt { a, .. } | FOp::Q2Neg { a, .. } => {
+            let (re, im) = &st.q2.regs[*a % n].1;
+            let c = match (re.is_zero(), im.is_zero()) {
+                (true, true) => "0",
+                (false, true) => "real",
+                (true, false) => "imag",
+                _ => "general",
+            };
+            res.reach(format!("{}|{}", opname, c));
+        }
         FOp::Neg { k, a, .. } | FOp::Inverse { k, a, .. } => {
             res.reach(format!("{}|{}", opname, cls(k, *a)));
         }
